@@ -7,7 +7,7 @@
      next_set maxv scan                          scan = registered validators with stake > 0 in index order *)
 From Coq Require Import ZArith List Bool Lia Sorted.
 Import ListNotations.
-Require Import RV.Model.C42_Staking RV.Proof.C42_Staking.
+Require Import RV.Model.C42_Staking RV.Proof.C42_Staking RV.Proof.C42_System.
 Open Scope Z_scope.
 
 (* staking x and immediately unstaking the minted units never claims more than x — for every
@@ -29,10 +29,7 @@ Theorem C42_redemption_proportional : forall n v u c,
 Proof. exact redemption_value_prop. Qed.
 
 (* per epoch, the emissions are non-negative and sum to at most the configured amount, for every
-   active set, proposal statistics and minimum reliability.
-   PARTIAL for the second half of the property sentence: "distributed rewards never exceed the
-   reward vault" has the same arithmetic shape but is not proved here; the harness oracle checks it
-   on the implementation at every epoch change, and the model's reward split is compared. *)
+   active set, proposal statistics and minimum reliability *)
 Theorem C42_emission_bounded : forall te minrel active l,
   emissions te minrel active = Some l -> 0 <= te ->
   Forall (fun a : Z * Z * Z * Z => 0 <= snd (fst a) /\ 0 <= snd a) active ->
@@ -57,6 +54,91 @@ Theorem C42_active_set_shape : forall maxv scan,
   (forall y z, In y scan -> ~ In y (next_set maxv scan) -> In z (next_set maxv scan) -> snd y <= snd z).
 Proof. exact next_set_shape. Qed.
 
+(* per epoch, the rewards handed to validators are non-negative and sum to at most the rewards
+   vault, for every active set and statistics, provided the proposer counters sum to at most the
+   vault (an invariant of the state machine below: every fee distribution adds the proposer's part
+   to both) *)
+Theorem C42_reward_bounded : forall minrel active proposer vault l,
+  rewards minrel active proposer vault = Some l -> active_ok active ->
+  Forall (fun it : Z * Z => 0 <= snd it) proposer -> zsum (map snd proposer) <= vault ->
+  Forall (fun it : Z * Z => 0 <= snd it) l /\ zsum (map snd l) <= vault.
+Proof. exact reward_bounded. Qed.
+
+(* ---- histories -------------------------------------------------------------------------------
+   The staking system as a state machine [sstep] over: stake, unstake, claim_xrd, fee distribution
+   of a committed transaction, epoch change, fee-factor change, (un)registration.  [sinv]: every
+   stake vault / unit supply / locked amount >= 0, every pending-withdraw vault holds exactly the
+   sum of the outstanding claim NFTs, rewards vault >= sum of the proposer counters >= 0.
+   [held s] = all XRD in stake vaults, pending-withdraw vaults and the rewards vault;
+   [balance s] = held s + paid out (claims) - received (stakes, fees) - minted (emissions). *)
+
+(* over every operation sequence (failed transactions change nothing) the invariant is kept and
+   the balance is constant: XRD in the system changes only by what users put in, what claims pay
+   out and the minted emission — nothing else is created or lost *)
+Theorem C42_conservation : forall ops s,
+  sinv s ->
+  sinv (srun s ops) /\ balance (srun s ops) = balance s /\
+  g_mint s <= g_mint (srun s ops) /\ g_in s <= g_in (srun s ops) /\ g_out s <= g_out (srun s ops).
+Proof. exact srun_conservation. Qed.
+
+(* an epoch change mints between 0 and the configured amount, takes between 0 and the rewards
+   vault out of it, takes nothing from users and pays nothing out *)
+Theorem C42_epoch_bounds : forall s te minrel active s',
+  sstep s (SEpoch te minrel active) = Some s' -> sinv s -> 0 <= te -> active_ok active ->
+  0 <= g_mint s' - g_mint s <= te /\ 0 <= srv s - srv s' <= srv s /\
+  g_in s' = g_in s /\ g_out s' = g_out s /\ sepoch s' = sepoch s + 1.
+Proof. exact epoch_bounds. Qed.
+(* the XRD minted is exactly the sum of the emissions applied, the rewards vault shrinks by exactly
+   the rewards, and each validator's stake vault grows by exactly its emission plus its reward *)
+Theorem C42_epoch_vault_growth : forall s te minrel active s',
+  sstep s (SEpoch te minrel active) = Some s' ->
+  exists es rs,
+    emissions te minrel active = Some es /\ rewards minrel active (sprop s) (srv s) = Some rs /\
+    g_mint s' = g_mint s + zsum (map snd es) /\ srv s' = srv s - zsum (map snd rs) /\
+    forall k, sv_at k (svals s') = sv_at k (svals s) + sum_for (Z.of_nat k) es + sum_for (Z.of_nat k) rs.
+Proof. exact epoch_vault_growth. Qed.
+(* the epoch change never fails for lack of funds in the rewards vault *)
+Theorem C42_rewards_vault_suffices : forall s te minrel active es rs,
+  sinv s -> active_ok active ->
+  emissions te minrel active = Some es -> rewards minrel active (sprop s) (srv s) = Some rs ->
+  existsb (fun it : Z * Z => snd it <? 0) rs || (srv s <? zsum (map snd rs)) = false.
+Proof. exact epoch_rewards_vault_suffices. Qed.
+
+(* unstake records a claim of c XRD with c·U <= n·V (the proportional share, rounded down) and
+   moves exactly c into the pending-withdraw vault; claim_xrd pays exactly the recorded amount of a
+   claim NFT whose epoch has come, and such a claim can always be paid *)
+Theorem C42_unstake_records_proportional_claim : forall n ce v v',
+  v_unstake n ce v = Some v' -> vinv v ->
+  vinv v' /\ xrd v' = xrd v /\
+  exists c, sclaims v' = (c, ce) :: sclaims v /\ 0 <= c /\ sv v' = sv v - c /\ su v' = su v - n /\
+            (0 < su v -> c * su v <= n * sv v).
+Proof. exact v_unstake_ok. Qed.
+Theorem C42_claim_pays_recorded_amount : forall amt ce cur v v',
+  v_claim amt ce cur v = Some v' -> vinv v ->
+  vinv v' /\ xrd v' = xrd v - amt /\ In (amt, ce) (sclaims v) /\ ce <= cur /\ 0 <= amt /\
+  sv v' = sv v /\ su v' = su v.
+Proof. exact v_claim_ok. Qed.
+Theorem C42_claim_always_payable : forall amt ce cur v,
+  vinv v -> In (amt, ce) (sclaims v) -> ce <= cur -> v_claim amt ce cur v <> None.
+Proof. exact v_claim_succeeds. Qed.
+
+(* Outside the statement, recorded here because it is a loss for a staker (not a gain, so no
+   clause of C42 is contradicted: units minted = x·U/V = 0 is "in proportion", nothing is created):
+   when every stake unit of a validator has been unstaked while V/U was not representable with 18
+   digits, dust stays in the stake vault with unit supply 0; calculate_stake_unit_amount then mints
+   x·(0/V) = 0 units for every later stake, and that XRD can never be redeemed (redemption value of
+   any amount of units is 0 while the supply is 0... and no unit exists).  Replayed on the engine by
+   the harness in every run (scripted history, counter
+   stakes_into_vault_with_dust_but_zero_unit_supply); values below are from that replay. *)
+Theorem C42_stake_into_dust_with_zero_supply_mints_nothing :
+  stake 5000000000000000000 22 0 = Some (0, 5000000000000000022, 0) /\
+  forall x v, 0 <= x -> 0 < v -> forall m, stake_units x v 0 = Some m -> m = 0.
+Proof.
+  split; [vm_compute; reflexivity|].
+  intros x v Hx Hv m H. pose proof (stake_units_prop _ _ _ _ H Hx ltac:(lia) ltac:(lia)) as (Hm & _ & Hp).
+  specialize (Hp Hv). nia.
+Qed.
+
 (* non-vacuity: a validator with 3 XRD staked for 2 units (after emissions); staking 1 XRD mints
    0.666... units which redeem for slightly less than 1 XRD; an emission split over two validators *)
 Example C42_nonvacuous :
@@ -67,6 +149,26 @@ Example C42_nonvacuous :
   next_set 2 [(0, 5); (1, 9); (2, 7)] = [(1, 9); (2, 7)].
 Proof. vm_compute. repeat split; reflexivity. Qed.
 
+(* non-vacuity of the history theorems: a two-validator system satisfying [sinv] on which stake,
+   unstake, fees, an epoch change with emissions and rewards, and a claim all succeed *)
+Example C42_history_nonvacuous :
+  let D := 10 ^ 18 in
+  let v0 := {| sv := 30 * D; su := 20 * D; spend := 0; slock := 0; sff := D / 2; sreg := true; sclaims := [] |} in
+  let v1 := {| sv := 10 * D; su := 10 * D; spend := 0; slock := 0; sff := D; sreg := true; sclaims := [] |} in
+  let s0 := {| svals := [v0; v1]; srv := 0; sprop := []; sepoch := 5; g_in := 0; g_out := 0; g_mint := 0 |} in
+  let ops := [SStake 0 (3 * D); SUnstake 1 (2 * D) 1; SFee 0 (D / 10) (D / 5);
+              SEpoch (10 * D) (D / 2) [(0, 30 * D, 9, 1); (1, 10 * D, 3, 1)]; SClaim 1 (2 * D) 6] in
+  sinv s0 /\
+  let s := srun s0 ops in
+  sepoch s = 6 /\ g_in s = 3 * D + 3 * D / 10 /\ g_out s = 2 * D /\ g_mint s = 7250000000000000000 /\
+  held s = held s0 + g_in s + g_mint s - g_out s.
+Proof.
+  cbv zeta. split.
+  - unfold sinv, vinv. cbn [svals srv sprop sv su slock spend sclaims map fst snd zsum].
+    repeat split; repeat constructor; try (vm_compute; discriminate).
+  - vm_compute. repeat split; reflexivity.
+Qed.
+
 Print Assumptions C42_stake_unstake_no_gain.
 Print Assumptions C42_units_proportional.
 Print Assumptions C42_redemption_proportional.
@@ -74,3 +176,13 @@ Print Assumptions C42_emission_bounded.
 Print Assumptions C42_sort_prefix_antitone.
 Print Assumptions C42_active_set_shape.
 Print Assumptions C42_nonvacuous.
+Print Assumptions C42_reward_bounded.
+Print Assumptions C42_conservation.
+Print Assumptions C42_epoch_bounds.
+Print Assumptions C42_epoch_vault_growth.
+Print Assumptions C42_rewards_vault_suffices.
+Print Assumptions C42_unstake_records_proportional_claim.
+Print Assumptions C42_claim_pays_recorded_amount.
+Print Assumptions C42_claim_always_payable.
+Print Assumptions C42_stake_into_dust_with_zero_supply_mints_nothing.
+Print Assumptions C42_history_nonvacuous.
